@@ -1,16 +1,16 @@
 """C06 - apply(diff(A,B), A) = B"""
-from props import comps_uord, oracles
+from props import comps_difftree, comps_uord, oracles
 
 PID = "C06"
 LEVEL = "proof"
 
 
 def components():
-    return [comps_uord.UDiff(), comps_uord.KDiff(), comps_uord.UApply()]
+    return [comps_uord.UDiff(), comps_uord.KDiff(), comps_uord.UApply(), comps_difftree.DiffTree("C06")]
 
 
 def oracles_():
-    return [comps_uord.UordForwardOracle(), oracles.DiffFwd(), oracles.DiffUordFwd()]
+    return [comps_difftree.KeepStream(), comps_uord.UordForwardOracle(), oracles.DiffFwd(), oracles.DiffUordFwd(), comps_difftree.DiffTreeLaws("C06")]
 
 
 MANIFEST = {
@@ -19,8 +19,21 @@ MANIFEST = {
             "(userord_moves_correct), *data stays the first sibling, every generated move satisfies first_pos >= second_pos (the "
             "memmove precondition) and diff(l,l) is empty. Tie: extracted model vs lyd_diff_siblings/lyd_diff_apply_all on the same "
             "lists (T2, exhaustive for small lists). Tree-level laws (any depth, defaults, case switches, purity, print/parse of "
-            "the diff) are checked by the API oracle on generated tree pairs (search).",
+            "the diff) are checked by the API oracle on generated tree pairs (search). "
+            "TREE level, everything that is not user-ordered (Properties_C06_difftree.v, closed): C06_diff_self_empty (diff(A,A) empty, "
+            "both options), C06_apply_diff_exact (for all well-formed A,B - leaves, containers, choices/cases, system-ordered lists and "
+            "leaf-lists at any depth - apply(diff(A,B),A) with LYD_DIFF_DEFAULTS succeeds and equals B exactly, default flags of "
+            "non-presence containers included), C06_apply_canon, C06_apply_any_order (the meaning of a diff does not depend on the order "
+            "of its siblings). Tie: the extracted model of lyd_diff_siblings/lyd_diff_apply_all gets the dumps of generated triples "
+            "A,B,C and must print the same diff trees (operation explicit or inherited, orig-value, orig-default, default flag, sibling "
+            "order) and the same patched trees as libyang, with and without the defaults option (T2 dtree-C06); the well-formedness "
+            "hypothesis wfb and the law without defaults (explicit nodes of apply(diff(A,B),A) equal those of B) are evaluated on every "
+            "generated case.",
     "note": "Modelled C: lyd_diff_userord_attrs, the user-ordered part of lyd_diff_siblings_r/lyd_diff_add, lyd_diff_insert, "
-            "lyd_diff_apply_r for one list. The general tree diff is not modelled in Coq yet; it is covered by the oracle only.",
+            "lyd_diff_apply_r for one list. Tree level (slice difftree): lyd_diff_siblings_r, lyd_diff_attrs, lyd_diff_find_match, "
+            "lyd_diff_add (operation placement, sibling order incl. the lyds red-black tree of duplicated parents), lyd_diff_apply_r "
+            "with the lyd_np_cont_dflt_set/_del walks, lyd_change_term, lyd_insert_node; user-ordered / duplicate-instance lists, "
+            "anydata, metadata and opaque nodes are outside the tree model (oracle only). Without the defaults option the law is the "
+            "executable check per case (no general proof); re-validation is covered by the API oracle.",
     "technique": "Coq proof (list-level diff/apply invariant) + differential correspondence + API metamorphic oracle",
 }
